@@ -5,7 +5,7 @@ import asmk
 
 PROP = "C08"
 NAMES = ["gg1", ".ll1", "sc1.ll1", "gg2", "st1.ll1", "st1"]
-OPS = ["label", "defl", "defn", "redefl", "redefn", "undef", "isdef", "use", "usefwd", "use2", "usepair", "struct", "sizeuse", "sizedef"]
+OPS = ["label", "defl", "defn", "redefl", "redefn", "undef", "isdef", "use", "usefwd", "use2", "usepair", "struct", "sizeuse", "sizedef", "usehi"]
 
 class Abstract:
     """the abstract history machine: a finite map name -> expression over names/ints, with the
@@ -102,6 +102,13 @@ def run_history(hist, only_failed=False):
             if d is None: break
             e = A.inline(('add', d, 0))
             A.bytes.append(e & 255 if isinstance(e, int) else ('late', e)); A.here += 1
+        elif op == "usehi":
+            # a use that shows the upper half of the value (values are 32 bits wide, not 16)
+            d = A.q(n)
+            lines.append("@db ( %s >> 16 ) & 255" % n)
+            if d is None: break
+            e = A.inline(('add', d, 0))
+            A.bytes.append((e >> 16) & 255 if isinstance(e, int) else ('latehi', e)); A.here += 1
         elif op == "struct":
             # @struct NAME / ll1 <member> / @endstruct : NAME and NAME.ll1 are plain definitions like any other
             sname = n if "." not in n else "st1"
@@ -152,6 +159,11 @@ def run_history(hist, only_failed=False):
     for b in A.bytes:
         if isinstance(b, int):
             out.append(b)
+        elif b[0] == 'latehi':
+            v = A.solve(b[1], A.tab)
+            if v is None:
+                return text, "DIAG"
+            out.append((v >> 16) & 255)
         elif b[0] == 'late2':
             v1, v2 = A.solve(b[1], A.tab), A.solve(b[2], A.tab)
             if v1 is None or v2 is None:
@@ -169,7 +181,7 @@ def gen_step(rng):
     n = rng.choice(NAMES)
     arg = None
     if op in ("defl", "defn", "redefl", "redefn"):
-        arg = rng.choice([rng.randrange(0, 300), n, rng.choice(NAMES)])
+        arg = rng.choice([rng.randrange(0, 300), n, rng.choice(NAMES), rng.choice([0x12345, 70000, 0x7FFFFFFF, 65536, 0xFFFF])])
     if op == "usepair":
         arg = rng.choice(NAMES)
     if op == "struct":
@@ -192,6 +204,11 @@ def run(ck):
              [("struct", "st1", 3), ("sizedef", "st1.ll1", None), ("use", "gg2", None), ("undef", "st1.ll1", None), ("undef", "st1", None),
               ("struct", "st1", 1), ("use", "gg2", None), ("sizeuse", "st1.ll1", None)],
              [("sizeuse", "st1.ll1", None), ("struct", "st1", 1), ("sizeuse", "st1.ll1", None)],
+             # values wider than 16 bits keep all their bits, whichever directive defines them and whenever they are used
+             [("defl", "gg1", 0x12345), ("usehi", "gg1", None), ("use", "gg1", None)],
+             [("usehi", "gg1", None), ("defl", "gg1", 0x7FFF1234), ("usehi", "gg1", None)],
+             [("defn", "gg1", 70000), ("usehi", "gg1", None), ("redefl", "gg1", 0x20000), ("usehi", "gg1", None), ("redefn", "gg1", 0x30000), ("usehi", "gg1", None)],
+             [("defl", "gg2", 0x54321), ("defl", "gg1", "gg2"), ("usehi", "gg1", None)],
              [("sizedef", "st1.ll1", None), ("use", "gg2", None), ("struct", "st1", 2)],
              # one deferred expression reaching a pending name twice / through two paths
              [("use2", "gg1", None), ("defn", "gg1", 5)],
